@@ -44,7 +44,7 @@ def check (selfReg : Nat) (otherReg : Option Nat) : Except Err Bool :=
 /-- operators between registry objects -/
 inductive Op
   | add | sub | mul | truediv | floordiv | mod | divmod | lt | le | gt | ge
-  | iadd | isub | imul | itruediv | ifloordiv | imod
+  | iadd | isub | imul | itruediv | ifloordiv | imod | pow | ipow
   deriving DecidableEq, Repr, Inhabited
 
 /-- every arithmetic and ordering operator starts with the registry check -/
